@@ -377,6 +377,11 @@ def r4_chunk_cap(ck, F):
             ed = bool_edges(b, value_site=guard[0])
             ok = ed is not None and b.dominates(ed[1], mc[0][0].bb) and not b.dominates(ed[2], mc[0][0].bb) and b.dominates(wc[0][0], guard[0])
             ck.ob(R, "merge-trigger-placement", ok, "the trigger is evaluated after every spill and its true edge reaches merge_chunks", b, guard[0])
+            if ed is not None:
+                # ... unconditionally: once the count is reached nothing else (a size test, a flag) can skip the merge
+                reach = reachable_without(b, banned_blocks=[mc[0][0].bb], start=ed[1]) if ed[1] != mc[0][0].bb else set()
+                skipped = [r for r in b.return_blocks() if r in reach]
+                ck.ob(R, "merge-trigger-is-the-only-condition", not skipped, "every path from the trigger's true edge to a return passes merge_chunks (no second condition between the count test and the merge)", b, guard[0])
         from .errflow import propagated
         ck.ob(R, "merge-error-propagated", propagated(F, b, mc[0][0]), "merge_chunks' error is propagated", b, mc[0][0])
     st = field_stores(F, A("sorter_builder"), "max_nb_chunks")
